@@ -50,6 +50,16 @@ type Rec4 struct {
 	Self []Rec4
 }
 
+// Chain embeds a pointer to its own type (template analysis that looks
+// through embedded structs must not follow it forever).
+type Chain struct {
+	*Chain
+	Value int
+}
+
+// SelfSlice is a slice of itself.
+type SelfSlice []SelfSlice
+
 // Types with kinds the library does not support.
 type BadChan struct {
 	A int
@@ -336,6 +346,13 @@ func (g *vgen) fill(v reflect.Value, depth int) {
 		for i := t.Small("v-node-n", 3); i > 0; i-- {
 			n.Children = append(n.Children, g.str())
 		}
+		if g.o.Shared && !g.o.NoCycles && !g.cyclic && !g.dag && len(n.Children) > 0 && t.Chance("v-node-self", 1, 4) {
+			// a node among its own children (the struct is copied into the
+			// slice, but the copy shares the slice: a cycle without a pointer)
+			n.Children[len(n.Children)-1] = n
+			g.cyclic = true
+			g.shared++
+		}
 		v.Set(reflect.ValueOf(n))
 		return
 	case reflect.TypeOf(types.Edge{}):
@@ -348,22 +365,27 @@ func (g *vgen) fill(v reflect.Value, depth int) {
 	case reflect.Int, reflect.Int8, reflect.Int16, reflect.Int32, reflect.Int64:
 		bits := uint(v.Type().Bits())
 		x := int64(t.U64("v-int"))
-		switch t.Intn("v-int-class", 3) {
+		switch t.Intn("v-int-class", 4) {
 		case 0:
 			x = x % 100
 		case 1:
 			x = x % 70000
+		case 3:
+			// the edges of the type's range and of the narrower encodings
+			x = []int64{-1 << 63, 1<<63 - 1, -1<<63 + 1, -1 << 31, 1<<31 - 1, -1 << 15, -129, 255, 256, 65535, 65536, 1 << 32, -1}[x&0xffff%13]
 		}
 		x = x << (64 - bits) >> (64 - bits)
 		v.SetInt(x)
 	case reflect.Uint, reflect.Uint8, reflect.Uint16, reflect.Uint32, reflect.Uint64, reflect.Uintptr:
 		bits := uint(v.Type().Bits())
 		x := t.U64("v-uint")
-		switch t.Intn("v-uint-class", 3) {
+		switch t.Intn("v-uint-class", 4) {
 		case 0:
 			x = x % 100
 		case 1:
 			x = x % 70000
+		case 3:
+			x = []uint64{1<<64 - 1, 1 << 63, 1<<63 - 1, 1 << 32, 1<<32 - 1, 65536, 65535, 256, 255}[x%9]
 		}
 		x = x << (64 - bits) >> (64 - bits)
 		v.SetUint(x)
